@@ -378,9 +378,9 @@ pub fn run(env: &Env) -> i32 {
     });
     // random programs
     let cfg = program::GenCfg { undecided: true, plant: 70, ..Default::default() };
-    tape_stream(env, &mut st, "random", env.tier.n(4000, 250_000), 1500, |tape, s| random_case(tape, &cfg, s));
+    tape_stream(env, &mut st, "random", env.tier.n(16_000, 400_000), 1500, |tape, s| random_case(tape, &cfg, s));
     let cfg_deep = program::GenCfg { undecided: true, plant: 40, max_depth: 12, max_stmts: 3, pragma_mode: 1, ..Default::default() };
-    tape_stream(env, &mut st, "random-deep", env.tier.n(1000, 50_000), 3000, |tape, s| random_case(tape, &cfg_deep, s));
+    tape_stream(env, &mut st, "random-deep", env.tier.n(3000, 80_000), 3000, |tape, s| random_case(tape, &cfg_deep, s));
 
     let classes = st.sets.get("position_classes").map(|s| s.len()).unwrap_or(0) as u64;
     let rejected = st.counters.get("generator_rejected_by_parser").copied().unwrap_or(0);
@@ -399,7 +399,7 @@ pub fn run(env: &Env) -> i32 {
             "generator_acceptance": {"accepted": accepted, "rejected": rejected},
         }),
         floors: vec![
-            ("position classes hit".into(), classes, 150),
+            ("position classes hit".into(), classes, 163),
             ("random programs accepted by the parser (percent)".into(), if accepted + rejected == 0 { 100 } else { accepted * 100 / (accepted + rejected) }, 90),
             ("matrix instances accepted (percent)".into(), (n_inst - mrej) * 100 / n_inst.max(1), 85),
         ],
